@@ -19,6 +19,7 @@ import (
 	"strconv"
 	"strings"
 	"sync"
+	"sync/atomic"
 	"time"
 
 	"github.com/renbou/grpcbridge"
@@ -163,12 +164,24 @@ func (e *env) settled(name string, sent service) bool {
 	return err == nil && hr.Target != nil && hr.Target.Name == name
 }
 
+// exhausted counts settle waits that ran into their bound: on a broken tree every Add would wait in full,
+// so after a few of them the bound is cut (the verdict of such a tree is decided long before).
+var exhausted atomic.Int32
+
 func (e *env) waitSettled(name string, c contract, bound time.Duration) bool {
 	sent, ok := c.sentinel()
 	if !ok {
 		time.Sleep(noReflSettle)
 		return true
 	}
+	if exhausted.Load() >= 4 {
+		bound /= 8
+	}
+	defer func(t0 time.Time) {
+		if time.Since(t0) >= bound {
+			exhausted.Add(1)
+		}
+	}(time.Now())
 	deadline := time.Now().Add(bound)
 	for {
 		if e.settled(name, sent) {
